@@ -229,13 +229,13 @@ def plan(tier: str):
     else:
         for f in frames(tier, "full"):
             shards.append({"syms": "full", "maxlen": 3, "minlen": 0, "frame": f, "variants": allv})
-        for f in frames(tier, "mid"):
+        for f in frames(tier, "basic"):
             for first in SYMS_FULL:
-                shards.append({"syms": "full", "maxlen": 4, "minlen": 4, "frame": f, "variants": allv, "first": first})
+                shards.append({"syms": "full", "maxlen": 4, "minlen": 4, "frame": f, "variants": ["lf", "lf-noeol", "crlf-noeol", "blanks", "wsonly-noeol"], "first": first})
         for f in frames(tier, "min"):
             for first in SYMS_MID:
                 for second in SYMS_MID:
-                    shards.append({"syms": "mid", "maxlen": 6, "minlen": 5, "frame": f, "variants": MIN_VARIANTS, "first": first, "second": second})
+                    shards.append({"syms": "mid", "maxlen": 5, "minlen": 5, "frame": f, "variants": MIN_VARIANTS, "first": first, "second": second})
         for f in frames(tier, "mid"):
             shards.append({"syms": "small", "maxlen": 2, "minlen": 0, "frame": f, "variants": allv, "service": True})
         for f in frames(tier, "basic"):
@@ -370,7 +370,7 @@ def finish(tier, M: engine.Acc):
     if M.counters.get("roundtrips", 0) == 0:
         raise engine.Vacuous("no round trip executed")
     return {
-        "bounds": {"quick": "all histories <=2 over 12 symbols x 36 frames x 8 variants; length 3 x 6 frames x 5 variants; length 4 over 8 symbols x 3 frames x 3 variants; services <=2+<=2 over 5 symbols x 6 frames x 4 variants", "thorough": "all histories <=3 x 36 frames x 8 variants; length 4 x 12 frames x 8 variants; length 5-6 over 8 symbols x 3 frames x 3 variants; services"}[tier],
+        "bounds": {"quick": "all histories <=2 over 12 symbols x 36 frames x 8 variants; length 3 x 6 frames x 5 variants; length 4 over 8 symbols x 3 frames x 3 variants; services <=2+<=2 over 5 symbols x 6 frames x 4 variants", "thorough": "all histories <=3 over 13 symbols x 36 frames x 8 variants; length 4 x 6 frames x 5 variants; length 5 over 8 symbols x 3 frames x 3 variants; services <=2+<=2 x 12 frames x 8 variants"}[tier],
         "alphabet": SYMS_FULL,
         "variants": [v[0] for v in VARIANTS],
     }
